@@ -122,7 +122,7 @@ func chain3(c *hlib.Ctx) {
 			c.Stat("chain-ended-on-broken-output:"+r.kind, 1)
 			return
 		}
-		if tooSmall3(r.out) {
+		if tooSmall3(r.out) || folded3(r.out) || (r.out.NumTriangles() <= 400 && r.out.SelfIntersections() > 0) {
 			c.Stat("chain-ended-numerically-collapsed:"+r.kind, 1)
 			return
 		}
@@ -295,7 +295,7 @@ func runChain2(c *hlib.Ctx, g mesh2, nops int, forced []int) {
 		if len(o) == 0 || len(o) > 600 || !manifold2(out) {
 			return
 		}
-		if tooSmall2(out) {
+		if tooSmall2(out) || folded2(out) || selfTouch2(out) {
 			// vertices closer than float resolution allows new vertices to stay distinct: not an input
 			c.Stat("chain-ended-numerically-collapsed:"+kind, 1)
 			return
@@ -361,4 +361,64 @@ func numEdges3(soup [][3]int) int {
 		}
 	}
 	return len(set)
+}
+
+// folded2: a spike (the two segments at a vertex are anti-parallel) or two segments of different
+// vertices overlapping is not an embedded curve; only spikes are tested.
+func folded2(m *model2d.Mesh) bool {
+	bad := false
+	m.Iterate(func(s *model2d.Segment) {
+		for _, s2 := range m.Find(s[1]) {
+			if s2 != s {
+				d1 := s[1].Sub(s[0]).Normalize()
+				var d2 model2d.Coord
+				if s2[0] == s[1] {
+					d2 = s2[1].Sub(s2[0]).Normalize()
+				} else {
+					d2 = s2[0].Sub(s2[1]).Normalize()
+				}
+				if d1.Dot(d2) < -1+1e-9 {
+					bad = true
+				}
+			}
+		}
+	})
+	return bad
+}
+
+// selfTouch2: two segments without a common end point intersect or touch: the curve set is not
+// embedded (e.g. a sliver smoothed onto its centre line) and corner-cutting points may coincide.
+func selfTouch2(m *model2d.Mesh) bool {
+	segs := m.SegmentSlice()
+	orient := func(a, b, c model2d.Coord) float64 {
+		return (b.X-a.X)*(c.Y-a.Y) - (b.Y-a.Y)*(c.X-a.X)
+	}
+	sign := func(x float64) int {
+		if x > 0 {
+			return 1
+		} else if x < 0 {
+			return -1
+		}
+		return 0
+	}
+	within := func(a, b, p model2d.Coord) bool {
+		return p.X >= a.Min(b).X && p.X <= a.Max(b).X && p.Y >= a.Min(b).Y && p.Y <= a.Max(b).Y
+	}
+	for i, s := range segs {
+		for _, t := range segs[:i] {
+			if s[0] == t[0] || s[0] == t[1] || s[1] == t[0] || s[1] == t[1] {
+				continue
+			}
+			o1, o2 := sign(orient(s[0], s[1], t[0])), sign(orient(s[0], s[1], t[1]))
+			o3, o4 := sign(orient(t[0], t[1], s[0])), sign(orient(t[0], t[1], s[1]))
+			if o1 != o2 && o3 != o4 {
+				return true
+			}
+			if (o1 == 0 && within(s[0], s[1], t[0])) || (o2 == 0 && within(s[0], s[1], t[1])) ||
+				(o3 == 0 && within(t[0], t[1], s[0])) || (o4 == 0 && within(t[0], t[1], s[1])) {
+				return true
+			}
+		}
+	}
+	return false
 }
